@@ -1,74 +1,90 @@
-// @generated: all 9 x 9 ordered pairs of candidate kinds (see c13.rs)
-// Pairs that did not finish under CBMC within 300 s (every pair whose candidates are EQUAL, and most
-// pairs with the constrained-identity candidate; DESIGN.md §4.5) are left out: dgrnd_dgrnd_same, dgrnd_ucons, dgrnd_ugrnd_same, dgrnd_ugrndc_same, didnt_didnt, didnt_ucons, sgrnd_sgrnd_same, sgrnd_ucons, sidnt_sidnt, sidnt_ucons, ucons_dgrnd, ucons_didnt, ucons_sgrnd, ucons_sidnt, ucons_ucons, ucons_ugrnd, ucons_ugrndc, ucons_unkn, ucons_utriv, ugrnd_dgrnd_same, ugrnd_ucons, ugrnd_ugrnd_same, ugrnd_ugrndc_same, ugrndc_dgrnd_same, ugrndc_ucons, ugrndc_ugrnd_same, ugrndc_ugrndc_same, unkn_ucons
+// @generated: ordered pairs of the 9 candidate kinds (see c13.rs).
+//  * `_sound`: classes whose two candidates are EQUAL or carry equal substitutions are decided with
+//    the "never claims more" + idempotence assertions only (laws = 2, shared symbolic id): the
+//    order-independence assertion compares combine(a,b) with combine(b,a) by deep equality of equal
+//    terms and does not finish within 300 s; for equal candidates `combine` returns its first
+//    argument, so order independence there is the idempotence that IS asserted (`ab == a`).
+//  * also left out: the three equal-substitution classes with a constrained ground Unique candidate
+//    (ugrnd_ugrndc_same, ugrndc_ugrnd_same, ugrndc_ugrndc_same): deep equality of the constraint lists.
+//  * left out altogether (do not finish within 300 s in any split): the pairs with the
+//    constrained-identity Unique candidate, except utriv_ucons: dgrnd_ucons, didnt_ucons, sgrnd_ucons, sidnt_ucons, ucons_dgrnd, ucons_didnt, ucons_sgrnd, ucons_sidnt, ucons_ucons, ucons_ugrnd, ucons_ugrndc, ucons_unkn, ucons_utriv, ugrnd_ucons, ugrndc_ucons, unkn_ucons
 pairs! {
-    c13_q_combine_utriv_utriv: 0, 1, 0, 2;
-    c13_q_combine_utriv_ucons: 0, 1, 1, 2;
-    c13_q_combine_utriv_ugrnd: 0, 1, 2, 2;
-    c13_t_combine_utriv_didnt: 0, 1, 3, 2;
-    c13_q_combine_utriv_dgrnd: 0, 1, 4, 2;
-    c13_t_combine_utriv_sgrnd: 0, 1, 5, 2;
-    c13_t_combine_utriv_sidnt: 0, 1, 6, 2;
-    c13_q_combine_utriv_unkn: 0, 1, 7, 2;
-    c13_t_combine_utriv_ugrndc: 0, 1, 8, 2;
-    c13_t_combine_ugrnd_utriv: 2, 1, 0, 2;
-    c13_q_combine_ugrnd_ugrnd_diff: 2, 1, 2, 2;
-    c13_t_combine_ugrnd_didnt: 2, 1, 3, 2;
-    c13_q_combine_ugrnd_dgrnd_diff: 2, 1, 4, 2;
-    c13_q_combine_ugrnd_sgrnd_same: 2, 1, 5, 1;
-    c13_q_combine_ugrnd_sgrnd_diff: 2, 1, 5, 2;
-    c13_t_combine_ugrnd_sidnt: 2, 1, 6, 2;
-    c13_t_combine_ugrnd_unkn: 2, 1, 7, 2;
-    c13_q_combine_ugrnd_ugrndc_diff: 2, 1, 8, 2;
-    c13_t_combine_didnt_utriv: 3, 1, 0, 2;
-    c13_t_combine_didnt_ugrnd: 3, 1, 2, 2;
-    c13_q_combine_didnt_dgrnd: 3, 1, 4, 2;
-    c13_t_combine_didnt_sgrnd: 3, 1, 5, 2;
-    c13_q_combine_didnt_sidnt: 3, 1, 6, 2;
-    c13_t_combine_didnt_unkn: 3, 1, 7, 2;
-    c13_t_combine_didnt_ugrndc: 3, 1, 8, 2;
-    c13_t_combine_dgrnd_utriv: 4, 1, 0, 2;
-    c13_t_combine_dgrnd_ugrnd_diff: 4, 1, 2, 2;
-    c13_t_combine_dgrnd_didnt: 4, 1, 3, 2;
-    c13_q_combine_dgrnd_dgrnd_diff: 4, 1, 4, 2;
-    c13_q_combine_dgrnd_sgrnd_same: 4, 1, 5, 1;
-    c13_q_combine_dgrnd_sgrnd_diff: 4, 1, 5, 2;
-    c13_t_combine_dgrnd_sidnt: 4, 1, 6, 2;
-    c13_t_combine_dgrnd_unkn: 4, 1, 7, 2;
-    c13_t_combine_dgrnd_ugrndc_diff: 4, 1, 8, 2;
-    c13_t_combine_sgrnd_utriv: 5, 1, 0, 2;
-    c13_q_combine_sgrnd_ugrnd_same: 5, 1, 2, 1;
-    c13_q_combine_sgrnd_ugrnd_diff: 5, 1, 2, 2;
-    c13_t_combine_sgrnd_didnt: 5, 1, 3, 2;
-    c13_q_combine_sgrnd_dgrnd_same: 5, 1, 4, 1;
-    c13_q_combine_sgrnd_dgrnd_diff: 5, 1, 4, 2;
-    c13_q_combine_sgrnd_sgrnd_diff: 5, 1, 5, 2;
-    c13_t_combine_sgrnd_sidnt: 5, 1, 6, 2;
-    c13_q_combine_sgrnd_unkn: 5, 1, 7, 2;
-    c13_t_combine_sgrnd_ugrndc_same: 5, 1, 8, 1;
-    c13_t_combine_sgrnd_ugrndc_diff: 5, 1, 8, 2;
-    c13_t_combine_sidnt_utriv: 6, 1, 0, 2;
-    c13_t_combine_sidnt_ugrnd: 6, 1, 2, 2;
-    c13_t_combine_sidnt_didnt: 6, 1, 3, 2;
-    c13_t_combine_sidnt_dgrnd: 6, 1, 4, 2;
-    c13_q_combine_sidnt_sgrnd: 6, 1, 5, 2;
-    c13_t_combine_sidnt_unkn: 6, 1, 7, 2;
-    c13_t_combine_sidnt_ugrndc: 6, 1, 8, 2;
-    c13_t_combine_unkn_utriv: 7, 1, 0, 2;
-    c13_t_combine_unkn_ugrnd: 7, 1, 2, 2;
-    c13_t_combine_unkn_didnt: 7, 1, 3, 2;
-    c13_t_combine_unkn_dgrnd: 7, 1, 4, 2;
-    c13_t_combine_unkn_sgrnd: 7, 1, 5, 2;
-    c13_t_combine_unkn_sidnt: 7, 1, 6, 2;
-    c13_q_combine_unkn_unkn: 7, 1, 7, 2;
-    c13_t_combine_unkn_ugrndc: 7, 1, 8, 2;
-    c13_t_combine_ugrndc_utriv: 8, 1, 0, 2;
-    c13_q_combine_ugrndc_ugrnd_diff: 8, 1, 2, 2;
-    c13_t_combine_ugrndc_didnt: 8, 1, 3, 2;
-    c13_q_combine_ugrndc_dgrnd_diff: 8, 1, 4, 2;
-    c13_t_combine_ugrndc_sgrnd_same: 8, 1, 5, 1;
-    c13_t_combine_ugrndc_sgrnd_diff: 8, 1, 5, 2;
-    c13_t_combine_ugrndc_sidnt: 8, 1, 6, 2;
-    c13_t_combine_ugrndc_unkn: 8, 1, 7, 2;
-    c13_q_combine_ugrndc_ugrndc_diff: 8, 1, 8, 2;
+    c13_q_combine_utriv_utriv: 0, 1, 0, 2, 0;
+    c13_q_combine_utriv_ucons: 0, 1, 1, 2, 0;
+    c13_q_combine_utriv_ugrnd: 0, 1, 2, 2, 0;
+    c13_t_combine_utriv_didnt: 0, 1, 3, 2, 0;
+    c13_q_combine_utriv_dgrnd: 0, 1, 4, 2, 0;
+    c13_t_combine_utriv_sgrnd: 0, 1, 5, 2, 0;
+    c13_t_combine_utriv_sidnt: 0, 1, 6, 2, 0;
+    c13_q_combine_utriv_unkn: 0, 1, 7, 2, 0;
+    c13_t_combine_utriv_ugrndc: 0, 1, 8, 2, 0;
+    c13_t_combine_ugrnd_utriv: 2, 1, 0, 2, 0;
+    c13_q_combine_ugrnd_ugrnd_same_sound: 2, 1, 2, 1, 2;
+    c13_q_combine_ugrnd_ugrnd_diff: 2, 1, 2, 2, 0;
+    c13_t_combine_ugrnd_didnt: 2, 1, 3, 2, 0;
+    c13_q_combine_ugrnd_dgrnd_same_sound: 2, 1, 4, 1, 2;
+    c13_q_combine_ugrnd_dgrnd_diff: 2, 1, 4, 2, 0;
+    c13_q_combine_ugrnd_sgrnd_same: 2, 1, 5, 1, 0;
+    c13_q_combine_ugrnd_sgrnd_diff: 2, 1, 5, 2, 0;
+    c13_t_combine_ugrnd_sidnt: 2, 1, 6, 2, 0;
+    c13_t_combine_ugrnd_unkn: 2, 1, 7, 2, 0;
+    c13_q_combine_ugrnd_ugrndc_diff: 2, 1, 8, 2, 0;
+    c13_t_combine_didnt_utriv: 3, 1, 0, 2, 0;
+    c13_t_combine_didnt_ugrnd: 3, 1, 2, 2, 0;
+    c13_t_combine_didnt_didnt_sound: 3, 1, 3, 2, 2;
+    c13_q_combine_didnt_dgrnd: 3, 1, 4, 2, 0;
+    c13_t_combine_didnt_sgrnd: 3, 1, 5, 2, 0;
+    c13_q_combine_didnt_sidnt: 3, 1, 6, 2, 0;
+    c13_t_combine_didnt_unkn: 3, 1, 7, 2, 0;
+    c13_t_combine_didnt_ugrndc: 3, 1, 8, 2, 0;
+    c13_t_combine_dgrnd_utriv: 4, 1, 0, 2, 0;
+    c13_t_combine_dgrnd_ugrnd_same_sound: 4, 1, 2, 1, 2;
+    c13_t_combine_dgrnd_ugrnd_diff: 4, 1, 2, 2, 0;
+    c13_t_combine_dgrnd_didnt: 4, 1, 3, 2, 0;
+    c13_q_combine_dgrnd_dgrnd_same_sound: 4, 1, 4, 1, 2;
+    c13_q_combine_dgrnd_dgrnd_diff: 4, 1, 4, 2, 0;
+    c13_q_combine_dgrnd_sgrnd_same: 4, 1, 5, 1, 0;
+    c13_q_combine_dgrnd_sgrnd_diff: 4, 1, 5, 2, 0;
+    c13_t_combine_dgrnd_sidnt: 4, 1, 6, 2, 0;
+    c13_t_combine_dgrnd_unkn: 4, 1, 7, 2, 0;
+    c13_t_combine_dgrnd_ugrndc_same_sound: 4, 1, 8, 1, 2;
+    c13_t_combine_dgrnd_ugrndc_diff: 4, 1, 8, 2, 0;
+    c13_t_combine_sgrnd_utriv: 5, 1, 0, 2, 0;
+    c13_q_combine_sgrnd_ugrnd_same: 5, 1, 2, 1, 0;
+    c13_q_combine_sgrnd_ugrnd_diff: 5, 1, 2, 2, 0;
+    c13_t_combine_sgrnd_didnt: 5, 1, 3, 2, 0;
+    c13_q_combine_sgrnd_dgrnd_same: 5, 1, 4, 1, 0;
+    c13_q_combine_sgrnd_dgrnd_diff: 5, 1, 4, 2, 0;
+    c13_q_combine_sgrnd_sgrnd_same_sound: 5, 1, 5, 1, 2;
+    c13_q_combine_sgrnd_sgrnd_diff: 5, 1, 5, 2, 0;
+    c13_t_combine_sgrnd_sidnt: 5, 1, 6, 2, 0;
+    c13_q_combine_sgrnd_unkn: 5, 1, 7, 2, 0;
+    c13_t_combine_sgrnd_ugrndc_same: 5, 1, 8, 1, 0;
+    c13_t_combine_sgrnd_ugrndc_diff: 5, 1, 8, 2, 0;
+    c13_t_combine_sidnt_utriv: 6, 1, 0, 2, 0;
+    c13_t_combine_sidnt_ugrnd: 6, 1, 2, 2, 0;
+    c13_t_combine_sidnt_didnt: 6, 1, 3, 2, 0;
+    c13_t_combine_sidnt_dgrnd: 6, 1, 4, 2, 0;
+    c13_q_combine_sidnt_sgrnd: 6, 1, 5, 2, 0;
+    c13_t_combine_sidnt_sidnt_sound: 6, 1, 6, 2, 2;
+    c13_t_combine_sidnt_unkn: 6, 1, 7, 2, 0;
+    c13_t_combine_sidnt_ugrndc: 6, 1, 8, 2, 0;
+    c13_t_combine_unkn_utriv: 7, 1, 0, 2, 0;
+    c13_t_combine_unkn_ugrnd: 7, 1, 2, 2, 0;
+    c13_t_combine_unkn_didnt: 7, 1, 3, 2, 0;
+    c13_t_combine_unkn_dgrnd: 7, 1, 4, 2, 0;
+    c13_t_combine_unkn_sgrnd: 7, 1, 5, 2, 0;
+    c13_t_combine_unkn_sidnt: 7, 1, 6, 2, 0;
+    c13_q_combine_unkn_unkn: 7, 1, 7, 2, 0;
+    c13_t_combine_unkn_ugrndc: 7, 1, 8, 2, 0;
+    c13_t_combine_ugrndc_utriv: 8, 1, 0, 2, 0;
+    c13_q_combine_ugrndc_ugrnd_diff: 8, 1, 2, 2, 0;
+    c13_t_combine_ugrndc_didnt: 8, 1, 3, 2, 0;
+    c13_q_combine_ugrndc_dgrnd_same_sound: 8, 1, 4, 1, 2;
+    c13_q_combine_ugrndc_dgrnd_diff: 8, 1, 4, 2, 0;
+    c13_t_combine_ugrndc_sgrnd_same: 8, 1, 5, 1, 0;
+    c13_t_combine_ugrndc_sgrnd_diff: 8, 1, 5, 2, 0;
+    c13_t_combine_ugrndc_sidnt: 8, 1, 6, 2, 0;
+    c13_t_combine_ugrndc_unkn: 8, 1, 7, 2, 0;
+    c13_q_combine_ugrndc_ugrndc_diff: 8, 1, 8, 2, 0;
 }
